@@ -90,21 +90,14 @@ Definition c07_suffix : list event :=
    ETaskStart 0; EDepsDone 0; EDoneCheck 0 true; ETaskEnd 0; ERelease 0].
 
 Example C07_nonvacuous :
-  exists s s1 s2 c,
-    run (init 1 2 1 10 10 10 2 2) c07_prefix = Some s /\
-    find_coord 1 (coords s) = Some c /\ c_status c = NotStarted /\
-    step s (ECancel (-1) 1 9) = Some s1 /\
-    run s1 c07_suffix = Some s2 /\
-    map (fun x => (c_status x, c_exc x, c_event x, c_ran_callbacks x)) (coords s2)
-      = [(Cancelled, Some 9, true, [50])] /\
-    map (fun x => (k_id x, k_st x, k_skipped x, k_ran_main x)) (tasks s2) = [(0, TEnded, true, false)] /\
-    reqs s2 = [].
-Proof.
-  destruct (run (init 1 2 1 10 10 10 2 2) c07_prefix) as [s|] eqn:E1; [|vm_compute in E1; discriminate].
-  destruct (step s (ECancel (-1) 1 9)) as [s1|] eqn:E2;
-    [|vm_compute in E1; injection E1 as <-; vm_compute in E2; discriminate].
-  destruct (run s1 c07_suffix) as [s2|] eqn:E3;
-    [|vm_compute in E1; injection E1 as <-; vm_compute in E2; injection E2 as <-; vm_compute in E3; discriminate].
-  vm_compute in E1; injection E1 as <-; vm_compute in E2; injection E2 as <-; vm_compute in E3; injection E3 as <-.
-  eexists _, _, _, _. repeat split; reflexivity.
-Qed.
+  (* at the cancel the transfer is not started *)
+  option_map (fun s => map c_status (coords s)) (run (init 1 2 1 10 10 10 2 2) c07_prefix)
+    = Some [NotStarted] /\
+  (* the whole run is accepted; outcome *)
+  option_map (fun s2 =>
+      (map (fun x => (c_status x, c_exc x, c_event x, c_ran_callbacks x)) (coords s2),
+       map (fun x => (k_id x, k_st x, k_skipped x, k_ran_main x)) (tasks s2),
+       reqs s2))
+    (run (init 1 2 1 10 10 10 2 2) (c07_prefix ++ [ECancel (-1) 1 9] ++ c07_suffix))
+    = Some ([(Cancelled, Some 9, true, [50])], [(0, TEnded, true, false)], []).
+Proof. split; vm_compute; reflexivity. Qed.
